@@ -14,7 +14,10 @@ package routing
 // abstract symbol is expanded to a block of real address bits (random cut points and block values per world, so
 // the real prefixes are e.g. 0.0.0.0/0, 83.0.0.0/7, 83.44.128.0/19, host addresses /32 and /128).  Domain names:
 // label sequences joined by dots, letter-case variant cv (0 lower, 1 upper, 2 alternating).  Sequences: abstract
-// + base (0 or near 2^64).  `old` <=> LastUpdate more than an hour ago (AgeAll rewinds LastUpdate by two hours).
+// values are mapped ORDER-PRESERVINGLY into {0, 1, 2, 2^63-1, 2^63, 2^63+1, 2^64-2, 2^64-1} (zzvSeqPoints): the walk
+// draws a random increasing injection of the model's small sequence domain per world, the traces use all eight in
+// one history, so far-apart values (differences above 2^63, both ends of the uint64 range) meet in one table.
+// `old` <=> LastUpdate more than an hour ago (AgeAll rewinds LastUpdate by two hours).
 
 import (
 	"bufio"
@@ -189,13 +192,20 @@ type zzvWorld struct {
 	cut     map[string][]int      // fam -> cut points (len w+1), cut[0]=0, cut[w]=32|128
 	val     map[string][][3][]byte // fam -> per position -> per symbol: bit block (one byte per bit)
 	netKey  map[string]string     // real network string -> canonical abstract key "4/01"
-	seqBase uint64
+	seqReal map[int]uint64 // abstract sequence -> real sequence (advertised routes)
+	seqAbs  map[uint64]int
 	labels  map[string]bool
 	m       *Manager
 	targets map[string]string // forward: "key|origin|seq|metric" -> target passed
 }
 
-func zzvNewWorld(rng *mrand.Rand, w int, agents []string, bigSeq bool) *zzvWorld {
+// real sequence values the abstract ones are mapped to (order preserved)
+var zzvSeqPoints = []uint64{0, 1, 2, 1<<63 - 1, 1 << 63, 1<<63 + 1, ^uint64(0) - 1, ^uint64(0)}
+
+// spreadSeq: map the abstract sequences 0..nseq-1 to a random increasing selection of zzvSeqPoints (otherwise, and
+// always when advertisements with origin = local agent meet the manager's own small counter, the identity on the
+// first points: 0, 1, 2 are mapped to themselves).
+func zzvNewWorld(rng *mrand.Rand, w int, agents []string, spreadSeq bool, nseq int) *zzvWorld {
 	wd := &zzvWorld{rng: rng, w: w, ids: map[string]identity.AgentID{}, names: map[identity.AgentID]string{},
 		cut: map[string][]int{}, val: map[string][][3][]byte{}, netKey: map[string]string{}, targets: map[string]string{}}
 	for _, a := range append([]string{"L"}, agents...) {
@@ -212,8 +222,18 @@ func zzvNewWorld(rng *mrand.Rand, w int, agents []string, bigSeq bool) *zzvWorld
 		wd.ids[a] = id
 		wd.names[id] = a
 	}
-	if bigSeq {
-		wd.seqBase = ^uint64(0) - 1000 - uint64(rng.Intn(1000))
+	wd.seqReal, wd.seqAbs = map[int]uint64{}, map[uint64]int{}
+	idx := make([]int, len(zzvSeqPoints))
+	for i := range idx {
+		idx[i] = i
+	}
+	if spreadSeq && nseq > 0 && nseq < len(zzvSeqPoints) {
+		idx = rng.Perm(len(zzvSeqPoints))[:nseq]
+		sort.Ints(idx)
+	}
+	for a, i := range idx {
+		wd.seqReal[a] = zzvSeqPoints[i]
+		wd.seqAbs[zzvSeqPoints[i]] = a
 	}
 	for _, fam := range []string{"4", "6"} {
 		total := 32
@@ -411,18 +431,21 @@ func (wd *zzvWorld) pathNames(p []identity.AgentID) []string {
 }
 
 func (wd *zzvWorld) realSeq(origin string, s int) uint64 {
-	return wd.seqBase + uint64(s)
+	r, ok := wd.seqReal[s]
+	if !ok {
+		panic(fmt.Sprintf("zzv: abstract sequence %d has no real value in this world", s))
+	}
+	return r
 }
 
 func (wd *zzvWorld) absSeq(origin, nh string, s uint64) int {
 	if nh == "L" { // stored by a local add: the manager's own counter
 		return int(s)
 	}
-	d := s - wd.seqBase
-	if d > 1<<30 {
-		return -1
+	if a, ok := wd.seqAbs[s]; ok {
+		return a
 	}
-	return int(d)
+	return -1
 }
 
 const zzvMaxAge = time.Hour
@@ -806,6 +829,7 @@ type zzvGraph struct {
 	W        int          `json:"w"`
 	Agents   []string     `json:"agents"`
 	OrigHasL bool         `json:"orig_has_l"`
+	NSeq     int          `json:"nseq"` // abstract sequences of the model are 0..nseq-1
 	CaseVars []int        `json:"casevars"`
 	Nodes    []zzvState   `json:"nodes"`
 	Init     int          `json:"init"`
@@ -922,7 +946,7 @@ func TestZZVRouteWalk(t *testing.T) {
 		stuck := false
 		for remaining > 0 && budget > 0 && !stuck {
 			walks++
-			wd := zzvNewWorld(rng, g.W, g.Agents, !g.OrigHasL && rng.Intn(2) == 0)
+			wd := zzvNewWorld(rng, g.W, g.Agents, !g.OrigHasL && rng.Intn(4) > 0, g.NSeq)
 			cur := g.Init
 			if c := zzvCanonState(wd.state()); c != canon[cur] {
 				t.Fatalf("graph %s: a fresh manager does not project to the initial state: %s", g.Name, c)
@@ -972,7 +996,8 @@ func TestZZVRouteWalk(t *testing.T) {
 					}
 					if mism <= 40 {
 						zzvEmit("mismatch", map[string]any{"graph": g.Name, "node": cur, "s": canon[cur], "a": grp.A, "real_res": res,
-							"real_t": c, "spec": alts, "trail": trail})
+							"real_t": c, "spec": alts, "trail": trail,
+							"real_sequence_of_abstract": fmt.Sprint(wd.seqReal)})
 					}
 					break
 				}
@@ -1055,8 +1080,7 @@ func TestZZVRouteTrace(t *testing.T) {
 	var sample []any
 	pick := func(xs []string) string { return xs[rng.Intn(len(xs))] }
 	for tr := 0; tr < ntraces; tr++ {
-		bigSeq := rng.Intn(2) == 0
-		wd := zzvNewWorld(rng, W, agents, bigSeq)
+		wd := zzvNewWorld(rng, W, agents, false, 0) // abstract sequence i = i-th point of zzvSeqPoints, all in one history
 		tw.ev(map[string]any{"ev": "Reset", "trace": tr})
 		// this trace's universe
 		var pfx []zzvCidrKey
@@ -1111,8 +1135,12 @@ func TestZZVRouteTrace(t *testing.T) {
 			switch {
 			case r < 42: // advertisement
 				o, p := pick(agents), pick(peers)
-				if !bigSeq && rng.Intn(25) == 0 {
+				seq := rng.Intn(len(zzvSeqPoints))
+				if rng.Intn(25) == 0 {
+					// an advertisement claiming the local agent as origin competes with the manager's own small
+					// counter: keep it in the range where abstract = real
 					o = "L"
+					seq = rng.Intn(3)
 				}
 				if tbl == "agt" && rng.Intn(4) > 0 {
 					// normally the advertised agent is the origin
@@ -1140,7 +1168,7 @@ func TestZZVRouteTrace(t *testing.T) {
 					}
 				}
 				a := &zzvAct{Act: "Advert", Tbl: tbl, Key: zzvRaw(key), Origin: o, Nh: p, M: metrics[rng.Intn(len(metrics))],
-					Seq: rng.Intn(5), Path: path, Cv: 0}
+					Seq: seq, Path: path, Cv: 0}
 				if tbl == "dom" {
 					a.Cv = rng.Intn(3)
 				}
